@@ -195,13 +195,31 @@ def mix_weights(rep: Report, rng: random.Random, n: int) -> None:
         shape = rng.choice([(3,), (2, 3), (1,), (2, 1, 4), ()])
         x = torch.randn(shape, dtype=torch.float64)
         f = torch.randn(shape, dtype=torch.float64)
-        res, skip = U.residual_split(x, tau)
-        y = U.residual_add(f, skip, tau)
+        # every way of giving tau: omitted (the default 1.0 of BOTH functions), python int, float, 0-dim tensor, keyword
+        form = rng.choice(["float", "float", "omitted", "int", "tensor", "kw"])
+        if form == "omitted":
+            tau = 1.0
+            res, skip = U.residual_split(x)
+            y = U.residual_add(f, skip)
+        elif form == "int":
+            tau = float(rng.choice([1, 2, 3, 10]))
+            res, skip = U.residual_split(x, int(tau))
+            y = U.residual_add(f, skip, int(tau))
+        elif form == "tensor":
+            tt = torch.tensor(tau, dtype=torch.float64)
+            res, skip = U.residual_split(x, tt)
+            y = U.residual_add(f, skip, tt)
+        elif form == "kw":
+            res, skip = U.residual_split(input=x, tau=tau)
+            y = U.residual_add(residual=f, skip=skip, tau=tau)
+        else:
+            res, skip = U.residual_split(x, tau)
+            y = U.residual_add(f, skip, tau)
         d = math.sqrt(1 + tau * tau)
         exp = (x + tau * f) / d
-        rep.case(("mix", tau, shape))
+        rep.case(("mix", tau, shape, form))
         if not torch.equal(res.detach(), x) or float((y - exp).abs().max()) > 1e-12 * max(1.0, float(exp.abs().max())):
-            rep.violation(f"split/add with tau={tau} does not compute (x + tau*f)/sqrt(1+tau^2) on shape {shape}", {"kind": "mix", "tau": tau, "shape": list(shape)}, key="mix")
+            rep.violation(f"split/add with tau={tau} (given as {form}) does not compute (x + tau*f)/sqrt(1+tau^2) on shape {shape}", {"kind": "mix", "tau": tau, "shape": list(shape), "form": form}, key=f"mix:{form}")
             return
 
 
